@@ -28,8 +28,8 @@ func (r *rng) next() uint64 {
 	z = (z ^ (z >> 27)) * 0x94d049bb133111eb
 	return z ^ (z >> 31)
 }
-func (r *rng) intn(n int) int       { return int(r.next() % uint64(n)) }
-func (r *rng) chance(p int) bool    { return r.intn(100) < p }
+func (r *rng) intn(n int) int          { return int(r.next() % uint64(n)) }
+func (r *rng) chance(p int) bool       { return r.intn(100) < p }
 func (r *rng) pick(xs []string) string { return xs[r.intn(len(xs))] }
 
 type line struct {
@@ -510,7 +510,6 @@ func (g *gen) maps() []map[string]string {
 	return ms
 }
 
-
 // parenDepth: maximal nesting of "(" outside quoted strings (has( / all( / global( count too, harmlessly)
 func parenDepth(t string) int {
 	var quote byte
@@ -549,9 +548,13 @@ var tinyAtoms = []string{"has(a)", "has(b)", "a==''", "b!='x'", "all()", "!has(a
 
 func rep(s string, n int) string { return strings.Repeat(s, n) }
 
-func boundaryCases() []bcase {
+func boundaryCases(xl bool) []bcase {
 	var out []bcase
-	add := func(tag, text string) { out = append(out, bcase{text, tag}) }
+	add := func(tag, text string) {
+		if xl || len(text) <= 1300 { // the quick tier leaves out the few multi-kilobyte texts (slow to elaborate in Coq)
+			out = append(out, bcase{text, tag})
+		}
+	}
 	// A: right-nested && around an || core: input depth D, canonical depth D+1
 	for _, d := range []int{15, 16, 17, 30, 31, 32, 33, 34, 40, 63, 64, 65, 66, 100, 200} {
 		add(fmt.Sprintf("deep:and-nest:%d", d), rep("has(a)&&(", d)+"has(a)||has(b)"+rep(")", d))
@@ -626,9 +629,99 @@ func deepRandom(r *rng) (string, int) {
 	return s, d
 }
 
+// ---- AcceptVisitor(PrefixVisitor) stream ------------------------------------------------------------------
+
+type labelCollector struct{ max int }
+
+func (c *labelCollector) Visit(n any) {
+	var l string
+	switch x := n.(type) {
+	case *parser.LabelEqValueNode:
+		l = x.LabelName.Value()
+	case *parser.LabelNeValueNode:
+		l = x.LabelName.Value()
+	case *parser.LabelContainsValueNode:
+		l = x.LabelName.Value()
+	case *parser.LabelStartsWithValueNode:
+		l = x.LabelName.Value()
+	case *parser.LabelEndsWithValueNode:
+		l = x.LabelName.Value()
+	case *parser.LabelInSetNode:
+		l = x.LabelName.Value()
+	case *parser.LabelNotInSetNode:
+		l = x.LabelName.Value()
+	case *parser.HasNode:
+		l = x.LabelName.Value()
+	}
+	if len(l) > c.max {
+		c.max = len(l)
+	}
+}
+
+type pobs struct {
+	ok       bool
+	panic    string
+	text     string
+	uid      string
+	evals    []bool
+	maxLabel int
+}
+
+// parse, visit with the real PrefixVisitor, observe
+func observePrefixed(s, prefix string, maps []map[string]string) (o pobs) {
+	defer func() {
+		if e := recover(); e != nil {
+			o = pobs{panic: fmt.Sprint(e)}
+		}
+	}()
+	sel, err := parser.Parse(s)
+	if err != nil {
+		return pobs{}
+	}
+	lc := &labelCollector{}
+	sel.AcceptVisitor(lc) // (also recomputes String/UniqueID, harmlessly)
+	sel.AcceptVisitor(parser.PrefixVisitor{Prefix: prefix})
+	o.ok = true
+	o.maxLabel = lc.max
+	o.text = sel.String()
+	o.uid = sel.UniqueID()
+	for _, m := range maps {
+		o.evals = append(o.evals, sel.Evaluate(m))
+	}
+	return
+}
+
+var prefixPool = []string{"pcns.", "pcns.", "pcsa.", "", "x-", "projectcalico.org/"}
+
+func prefixMaps(r *rng, maps []map[string]string, prefix string) []map[string]string {
+	out := make([]map[string]string, len(maps))
+	for i, m := range maps {
+		keys := make([]string, 0, len(m))
+		for k := range m {
+			keys = append(keys, k)
+		}
+		sort.Strings(keys)
+		pm := map[string]string{}
+		for _, k := range keys {
+			switch r.intn(10) {
+			case 0, 1: // left without the prefix: must be invisible to the prefixed selector
+				pm[k] = m[k]
+			case 2: // both, with different values
+				pm[k] = m[k] + "?"
+				pm[prefix+k] = m[k]
+			default:
+				pm[prefix+k] = m[k]
+			}
+		}
+		out[i] = pm
+	}
+	return out
+}
+
 func main() {
 	n := flag.Int("n", 100, "cases")
 	seed := flag.Uint64("seed", 1, "seed")
+	xl := flag.Bool("xl", false, "include the extra-large boundary cases (thorough tier)")
 	hexIn := flag.String("hex", "", "replay: run exactly this input (hex of its bytes) instead of generating")
 	flag.Parse()
 	r := &rng{s: *seed}
@@ -647,7 +740,7 @@ func main() {
 		"a = 'b'", "a & b", "has(a", "has()", "all(x)", "a == b", "a == 'b", "!", "a !  = 'b'", "a\n== 'b'", "!!!has(a)", "a in {'x' 'y'}", "a in {,}",
 		"!(!(a == 'b' && !(!has(c))))"}
 
-	boundary := boundaryCases()
+	boundary := boundaryCases(*xl)
 	if *hexIn != "" || len(os.Args) > 1 && os.Args[1] == "-hex" {
 		boundary = nil
 		raw, err := hex.DecodeString(*hexIn)
@@ -670,8 +763,9 @@ func main() {
 			g.used["a"] = []string{"b", "x", "it's"}
 			g.used["c"] = []string{"d"}
 			g.labels = append(g.labels, "a", "c", "e", "has", "in", "not", "contains", "all", "global")
-		} else if i < len(fixed)+len(boundary) {
-			bc := boundary[i-len(fixed)]
+		} else if j := i - len(fixed); j%4 == 0 && j/4 < len(boundary) {
+			// boundary cases are spread out (every 4th case) so that no single Coq shard gets all the long texts
+			bc := boundary[j/4]
 			input = bc.text
 			stream = "boundary"
 			g.tag(bc.tag)
@@ -709,10 +803,24 @@ func main() {
 			re = observe(o.text, maps)
 		}
 		uidOK := o.accept && o.uid == hash.MakeUniqueID("s", o.text)
-		coq := fmt.Sprintf("{| c_pn := %s; c_input := %s; c_maps := %s; c_accept := %s; c_validate := %s; c_text := %s; c_evals := %s; "+
-			"c_uid_ok := %s; c_re_accept := %s; c_re_text := %s; c_re_evals := %s; c_re_uid_same := %s |}",
-			coqBool(pn), coqBytes(input), coqMaps(maps), coqBool(o.accept), coqBool(vok), coqBytes(o.text), coqBools(o.evals),
-			coqBool(uidOK), coqBool(re.accept), coqBytes(re.text), coqBools(re.evals), coqBool(o.accept && re.accept && re.uid == o.uid))
+		// long byte lists are slow to elaborate in Coq: write each distinct text once and share it with `let`
+		textTerm, reTerm := coqBytes(o.text), coqBytes(re.text)
+		lets := ""
+		if len(o.text) > 16 {
+			lets = "let t := " + textTerm + " in "
+			textTerm = "t"
+			if re.text == o.text {
+				reTerm = "t"
+			}
+		}
+		inTerm := coqBytes(input)
+		if len(input) > 16 && input == o.text {
+			inTerm = "t"
+		}
+		coq := fmt.Sprintf("(@inl case pcase (%s{| c_pn := %s; c_input := %s; c_maps := %s; c_accept := %s; c_validate := %s; c_text := %s; c_evals := %s; "+
+			"c_uid_ok := %s; c_re_accept := %s; c_re_text := %s; c_re_evals := %s; c_re_uid_same := %s |}))", lets,
+			coqBool(pn), inTerm, coqMaps(maps), coqBool(o.accept), coqBool(vok), textTerm, coqBools(o.evals),
+			coqBool(uidOK), coqBool(re.accept), reTerm, coqBools(re.evals), coqBool(o.accept && re.accept && re.uid == o.uid))
 
 		tags := []string{"stream:" + stream}
 		for t := range g.tags {
@@ -759,5 +867,63 @@ func main() {
 			Sample: map[string]any{"input": input, "input_hex": hex.EncodeToString([]byte(input)), "accepted": o.accept, "validate_ok": vok, "canonical": o.text, "evals": o.evals,
 				"reparsed_canonical": re.text, "uid": o.uid, "reparsed_uid": re.uid, "panic": o.panic + vpan + re.panic},
 			Tags: tags})
+
+		// ---- the same selector after AcceptVisitor(PrefixVisitor{prefix}) ----
+		isLabelBoundary := strings.Contains(strings.Join(tags, " "), "long:label")
+		if o.accept && len(input) < 1500 && (stream == "fixed" || isLabelBoundary || r.chance(22)) {
+			prefixes := []string{r.pick(prefixPool)}
+			if isLabelBoundary {
+				prefixes = []string{"pcns."}
+			}
+			if *hexIn != "" {
+				prefixes = []string{"pcns.", "pcsa.", "", "x-"}
+			}
+			for _, prefix := range prefixes {
+				pmaps := prefixMaps(r, maps, prefix)
+				po := observePrefixed(input, prefix, pmaps)
+				var pre obs
+				if po.ok {
+					pre = observe(po.text, pmaps)
+				}
+				puidOK := po.ok && po.uid == hash.MakeUniqueID("s", po.text)
+				pReTerm := coqBytes(pre.text)
+				if pre.text == po.text && len(po.text) > 16 {
+					pReTerm = "t"
+				}
+				pcoq := fmt.Sprintf("(@inr case pcase (let t := %s in {| p_pn := %s; p_input := %s; p_prefix := %s; p_maps := %s; p_text := t; p_evals := %s; "+
+					"p_uid_ok := %s; p_re_accept := %s; p_re_text := %s; p_re_evals := %s; p_re_uid_same := %s |}))",
+					coqBytes(po.text), coqBool(pn), coqBytes(input), coqBytes(prefix), coqMaps(pmaps), coqBools(po.evals),
+					coqBool(puidOK), coqBool(pre.accept), pReTerm, coqBools(pre.evals), coqBool(po.ok && pre.accept && pre.uid == po.uid))
+				ptags := []string{"stream:prefix-visitor", "prefix:" + prefix}
+				if po.maxLabel+len(prefix) > 512 {
+					ptags = append(ptags, "prefix:name-exceeds-512")
+					// exactly the known finding: the only thing wrong is that the prefixed name is too long to be re-read
+					if po.ok && puidOK && !pre.accept && po.maxLabel <= 512 {
+						ptags = append(ptags, "prefix:name-exceeds-512:known-shape")
+					}
+				}
+				if po.ok && !pre.accept {
+					ptags = append(ptags, "prefixed-text-rejected")
+				}
+				if po.panic != "" || pre.panic != "" {
+					ptags = append(ptags, "panic")
+				}
+				pmixed := false
+				for _, e := range po.evals {
+					if e != po.evals[0] {
+						pmixed = true
+					}
+				}
+				if pmixed {
+					ptags = append(ptags, "prefix:evals-mixed")
+				}
+				sort.Strings(ptags)
+				_ = enc.Encode(line{Coq: pcoq, NT: po.ok && pmixed, Key: "prefix|" + prefix + "|" + input,
+					Sample: map[string]any{"input": input, "input_hex": hex.EncodeToString([]byte(input)), "prefix": prefix, "prefixed_canonical": po.text,
+						"evals": po.evals, "reparse_accepted": pre.accept, "reparsed_canonical": pre.text, "uid": po.uid, "reparsed_uid": pre.uid,
+						"max_label_len": po.maxLabel, "panic": po.panic + pre.panic},
+					Tags: ptags})
+			}
+		}
 	}
 }
